@@ -16,6 +16,7 @@ structure SrcV where
   buf      : Bytes    -- SockWrapper.buf, flattened (read from the endpoint, not yet framed)
   shutR    : Bool     -- SockWrapper.shut_read
   mwShutW  : Bool     -- MuxWrapper.shut_write (EOF sent or STOP_SENDING received)
+  ownShutW : Bool     -- SockWrapper.shut_write of the same handler (it is the sink of the reverse direction)
   out      : List Frame   -- this end's frame queue
   consumed : Bytes    -- ghost: everything read from the endpoint
 
@@ -35,8 +36,7 @@ def noMore (a : SrcV) : Prop :=
 
 structure DirInv (c : Nat) (a : SrcV) (b : SinkV) : Prop where
   pre    : b.delivered <+: a.consumed
-  exact  : b.sawShut = true ∨ ∃ lost, a.consumed = b.delivered ++ b.buf ++ dataOf c a.out ++ a.buf ++ lost ∧
-             (lost ≠ [] → a.ever = true ∧ (a.present = false ∨ a.shutR = true))
+  exact  : b.sawShut = true ∨ a.consumed = b.delivered ++ b.buf ++ dataOf c a.out ++ a.buf
   shutOk : b.present = true → b.swShutW = true → b.sawShut = true
   conn   : b.ever = false → b.present = false ∧ connectAhead c a.out
   fresh  : a.ever = false → a.present = false ∧ a.consumed = [] ∧ noStream c a.out
@@ -50,27 +50,37 @@ structure DirInv (c : Nat) (a : SrcV) (b : SinkV) : Prop where
   srcEv  : a.present = true → a.ever = true
   snkEv  : b.present = true → b.ever = true
   goneShut : b.ever = true → b.present = false → b.sawShut = true   -- a handler is dropped only after it shut its socket
+  -- while the sink's socket is open, the source's mux side is shut for writing only by its own EOF
+  nl1    : b.sawShut = false → a.present = true → a.mwShutW = true → a.buf = [] ∧ a.shutR = true
+  -- a STOP_SENDING frame is in flight only from an end whose socket wrapper is shut for writing
+  stopOk : hasStop c a.out = true → a.ownShutW = true
 
 /-! ### transitions of the source view -/
 
-inductive SrcStep (c : Nat) : SrcV → SrcV → Prop
+/-- `k` = the sink's socket of this direction has been shut down (only then may the source lose
+bytes: it is told to stop, or is dropped with a non-empty buffer). -/
+inductive SrcStep (c : Nat) (k : Bool) : SrcV → SrcV → Prop
   | consume (a : SrcV) (x : Bytes) (hp : a.present = true) (hr : a.shutR = false) :
-      SrcStep c a { a with consumed := a.consumed ++ x, buf := a.buf ++ x }
+      SrcStep c k a { a with consumed := a.consumed ++ x, buf := a.buf ++ x }
   | send (a : SrcV) (moved rest : Bytes) (hb : a.buf = moved ++ rest) (hne : moved ≠ [])
       (hp : a.present = true) :
-      SrcStep c a { a with buf := rest, out := a.out ++ [⟨c, DATA, moved⟩] }
+      SrcStep c k a { a with buf := rest, out := a.out ++ [⟨c, DATA, moved⟩] }
   | eof (a : SrcV) (hp : a.present = true) (hb : a.buf = []) (hr : a.shutR = true)
       (hw : a.mwShutW = false) :
-      SrcStep c a { a with mwShutW := true, out := a.out ++ [⟨c, EOF, []⟩] }
-  | stopFrame (a : SrcV) (hp : a.present = true) :
-      SrcStep c a { a with out := a.out ++ [⟨c, STOP, []⟩] }
-  | foreign (a : SrcV) (fr : Frame) (hf : Foreign c fr) : SrcStep c a { a with out := a.out ++ [fr] }
-  | discard (a : SrcV) (hp : a.present = true) : SrcStep c a { a with buf := [], shutR := true }
-  | flags (a : SrcV) (r w : Bool) (hr : a.shutR = true → r = true) (hw : a.mwShutW = true → w = true) :
-      SrcStep c a { a with shutR := r, mwShutW := w }
-  | remove (a : SrcV) (hp : a.present = true) : SrcStep c a { a with present := false, buf := [] }
-  | create (a : SrcV) (he : a.ever = false) (r : Bool) :
-      SrcStep c a { a with present := true, ever := true, buf := [], shutR := r, mwShutW := false }
+      SrcStep c k a { a with mwShutW := true, out := a.out ++ [⟨c, EOF, []⟩] }
+  | stopFrame (a : SrcV) (hp : a.present = true) (hs : a.ownShutW = true) :
+      SrcStep c k a { a with out := a.out ++ [⟨c, STOP, []⟩] }
+  | foreign (a : SrcV) (fr : Frame) (hf : Foreign c fr) : SrcStep c k a { a with out := a.out ++ [fr] }
+  | discard (a : SrcV) (hp : a.present = true) (hw : a.mwShutW = true) :
+      SrcStep c k a { a with buf := [], shutR := true }
+  | flags (a : SrcV) (r w os : Bool) (hr : a.shutR = true → r = true) (hw : a.mwShutW = true → w = true)
+      (hos : a.ownShutW = true → os = true)
+      (hk : w = true → a.mwShutW = true ∨ k = true) :       -- STOP_SENDING arrives only after the sink shut
+      SrcStep c k a { a with shutR := r, mwShutW := w, ownShutW := os }
+  | remove (a : SrcV) (hp : a.present = true) (hb : a.buf = [] ∨ k = true) :
+      SrcStep c k a { a with present := false, buf := [] }
+  | create (a : SrcV) (he : a.ever = false) (r os : Bool) (hos : a.ownShutW = true → os = true) :
+      SrcStep c k a { a with present := true, ever := true, buf := [], shutR := r, mwShutW := false, ownShutW := os }
 
 inductive SinkStep : SinkV → SinkV → Prop
   | deliver (b : SinkV) (moved rest : Bytes) (hb : b.buf = moved ++ rest)
@@ -114,17 +124,28 @@ theorem notEof_stop (c : Nat) : isEof c ⟨c, STOP, []⟩ = false := by
 theorem notEof_data (c : Nat) (d : Bytes) : isEof c ⟨c, DATA, d⟩ = false := by
   simp [isEof]; exact fun h => absurd h cmds_distinct.1
 
+theorem notStop_data (c : Nat) (d : Bytes) : isStop c ⟨c, DATA, d⟩ = false := by
+  simp [isStop]; exact fun h => absurd h cmds_distinct.2.1
+
+theorem notStop_eof (c : Nat) : isStop c ⟨c, EOF, []⟩ = false := by
+  simp [isStop]; exact fun h => absurd h cmds_distinct.2.2.2.1
+
+theorem hasStop_append_single (c : Nat) (q : List Frame) (fr : Frame) (h : isStop c fr = false) :
+    hasStop c (q ++ [fr]) = hasStop c q := by
+  rw [hasStop_append]; simp [hasStop, h]
+
 /-- Appending one frame that is neither DATA nor EOF of `c` to the queue. -/
 theorem DirInv.appendInert {c : Nat} {a : SrcV} {b : SinkV} (h : DirInv c a b) (fr : Frame)
     (hd : isData c fr = false) (he : isEof c fr = false)
-    (hf : a.ever = false → isStream c fr = false) :
+    (hf : a.ever = false → isStream c fr = false)
+    (hst : isStop c fr = true → a.ownShutW = true) :
     DirInv c { a with out := a.out ++ [fr] } b := by
   have hdo : dataOf c (a.out ++ [fr]) = dataOf c a.out := by
     rw [dataOf_append, dataOf_single_other _ _ hd, List.append_nil]
-  refine { h with exact := ?_, conn := ?_, fresh := ?_, clean := ?_, eofNM := ?_, gone := ?_ }
-  · rcases h.exact with hs | ⟨lost, he', hl⟩
+  refine { h with exact := ?_, conn := ?_, fresh := ?_, clean := ?_, eofNM := ?_, gone := ?_, stopOk := ?_ }
+  · rcases h.exact with hs | he'
     · exact Or.inl hs
-    · exact Or.inr ⟨lost, by simp only [hdo]; exact he', hl⟩
+    · exact Or.inr (by simp only [hdo]; exact he')
   · intro hbe
     exact ⟨(h.conn hbe).1, connectAhead_append _ _ _ (h.conn hbe).2⟩
   · intro hae
@@ -143,6 +164,12 @@ theorem DirInv.appendInert {c : Nat} {a : SrcV} {b : SinkV} (h : DirInv c a b) (
     rcases h.gone hb1 hb2 with hs | ⟨nm, hd'⟩
     · exact Or.inl hs
     · exact Or.inr ⟨nm, by simp only [hdo]; exact hd'⟩
+  · intro hh
+    simp only [hasStop_append, Bool.or_eq_true] at hh
+    rcases hh with hh | hh
+    · exact h.stopOk hh
+    · apply hst
+      simpa [hasStop] using hh
 
 theorem noMore_of_flags {a a' : SrcV} (h : noMore a) (hev : a'.ever = a.ever)
     (hp : a'.present = a.present ∨ a'.present = false)
@@ -155,8 +182,8 @@ theorem noMore_of_flags {a a' : SrcV} (h : noMore a) (hev : a'.ever = a.ever)
     · right; exact ⟨hw h1, hb h2, hr h3⟩
   · left; exact hp
 
-theorem DirInv.srcStep {c : Nat} {a a' : SrcV} {b : SinkV} (h : DirInv c a b) (st : SrcStep c a a') :
-    DirInv c a' b := by
+theorem DirInv.srcStep {c : Nat} {a a' : SrcV} {b : SinkV} (h : DirInv c a b)
+    (st : SrcStep c b.sawShut a a') : DirInv c a' b := by
   cases st with
   | consume x hp hr =>
     have hev := h.srcEv hp
@@ -165,20 +192,11 @@ theorem DirInv.srcStep {c : Nat} {a a' : SrcV} {b : SinkV} (h : DirInv c a b) (s
       rcases nm.2 with h1 | ⟨_, _, h3⟩
       · rw [hp] at h1; cases h1
       · rw [hr] at h3; cases h3
-    refine { h with pre := ?_, exact := ?_, fresh := ?_, eofNM := ?_, gone := ?_, srcBuf := ?_ }
+    refine { h with pre := ?_, exact := ?_, fresh := ?_, eofNM := ?_, gone := ?_, srcBuf := ?_, nl1 := ?_ }
     · exact h.pre.trans (List.prefix_append _ _)
-    · rcases h.exact with hs | ⟨lost, he, hl⟩
+    · rcases h.exact with hs | he
       · exact Or.inl hs
-      · right
-        have hlost : lost = [] := by
-          cases lost with
-          | nil => rfl
-          | cons y ys =>
-            rcases (hl (by simp)).2 with h1 | h1
-            · rw [hp] at h1; cases h1
-            · rw [hr] at h1; cases h1
-        subst hlost
-        exact ⟨[], by simp only [he]; simp, by simp⟩
+      · exact Or.inr (by simp only [he]; simp)
     · intro he; rw [hev] at he; cases he
     · intro he; exact absurd (h.eofNM he) notNM
     · intro hb1 hb2
@@ -186,6 +204,9 @@ theorem DirInv.srcStep {c : Nat} {a a' : SrcV} {b : SinkV} (h : DirInv c a b) (s
       · exact Or.inl hs
       · exact absurd nm notNM
     · intro hnp; simp only at hnp; rw [hp] at hnp; cases hnp
+    · intro hs _ hw
+      have := (h.nl1 hs hp hw).2
+      rw [hr] at this; cases this
   | send moved rest hb hne hp =>
     have hev := h.srcEv hp
     have notNM : ¬ noMore a := by
@@ -199,11 +220,10 @@ theorem DirInv.srcStep {c : Nat} {a a' : SrcV} {b : SinkV} (h : DirInv c a b) (s
       | false => rfl
       | true => exact absurd (h.eofNM he) notNM
     refine { h with exact := ?_, conn := ?_, fresh := ?_, clean := ?_, eofNM := ?_, gone := ?_,
-                    srcBuf := ?_ }
-    · rcases h.exact with hs | ⟨lost, he, hl⟩
+                    srcBuf := ?_, nl1 := ?_, stopOk := ?_ }
+    · rcases h.exact with hs | he
       · exact Or.inl hs
       · right
-        refine ⟨lost, ?_, hl⟩
         simp only [dataOf_append, dataOf_single_data]
         rw [he, hb]; simp
     · intro hbe
@@ -220,16 +240,23 @@ theorem DirInv.srcStep {c : Nat} {a a' : SrcV} {b : SinkV} (h : DirInv c a b) (s
       · exact Or.inl hs
       · exact absurd nm notNM
     · intro hnp; simp only at hnp; rw [hp] at hnp; cases hnp
+    · intro hs _ hw
+      have := (h.nl1 hs hp hw).1
+      rw [this] at hb
+      exact absurd (List.append_eq_nil_iff.mp hb.symm).1 hne
+    · intro hh
+      rw [hasStop_append_single _ _ _ (notStop_data c moved)] at hh
+      exact h.stopOk hh
   | eof hp hb hr hw =>
     have hev := h.srcEv hp
     have hnd := notData_eof c
     have nm' : noMore { a with mwShutW := true, out := a.out ++ [⟨c, EOF, []⟩] } :=
       ⟨hev, Or.inr ⟨rfl, hb, hr⟩⟩
-    refine { h with exact := ?_, conn := ?_, fresh := ?_, clean := ?_, eofNM := ?_, gone := ?_ }
-    · rcases h.exact with hs | ⟨lost, he, hl⟩
+    refine { h with exact := ?_, conn := ?_, fresh := ?_, clean := ?_, eofNM := ?_, gone := ?_,
+                    nl1 := ?_, stopOk := ?_ }
+    · rcases h.exact with hs | he
       · exact Or.inl hs
       · right
-        refine ⟨lost, ?_, hl⟩
         simp only [dataOf_append, dataOf_single_other _ _ hnd, List.append_nil]
         exact he
     · intro hbe
@@ -245,18 +272,28 @@ theorem DirInv.srcStep {c : Nat} {a a' : SrcV} {b : SinkV} (h : DirInv c a b) (s
         refine ⟨nm', ?_⟩
         simp only [dataOf_append, dataOf_single_other _ _ hnd, List.append_nil]
         exact hd
-  | stopFrame hp =>
+    · intro _ _ _; exact ⟨hb, hr⟩
+    · intro hh
+      rw [hasStop_append_single _ _ _ (notStop_eof c)] at hh
+      exact h.stopOk hh
+  | stopFrame hp hs =>
     have hev := h.srcEv hp
-    exact h.appendInert _ (notData_stop c) (notEof_stop c) (fun he => by rw [hev] at he; cases he)
+    exact h.appendInert _ (notData_stop c) (notEof_stop c) (fun he => by rw [hev] at he; cases he) (fun _ => hs)
   | foreign fr hf =>
     exact h.appendInert fr hf.notData hf.notEof (fun _ => hf.1)
-  | discard hp =>
+      (fun hh => by rw [hf.notStop] at hh; cases hh)
+  | discard hp hw =>
     have hev := h.srcEv hp
-    refine { h with exact := ?_, fresh := ?_, eofNM := ?_, gone := ?_, srcBuf := ?_ }
-    · rcases h.exact with hs | ⟨lost, he, _⟩
+    refine { h with exact := ?_, fresh := ?_, eofNM := ?_, gone := ?_, srcBuf := ?_, nl1 := ?_ }
+    · rcases h.exact with hs | he
       · exact Or.inl hs
-      · right
-        exact ⟨a.buf ++ lost, by simp only [he]; simp, fun _ => ⟨hev, Or.inr rfl⟩⟩
+      · cases hsaw : b.sawShut with
+        | true => exact Or.inl rfl
+        | false =>
+          have hb0 := (h.nl1 hsaw hp hw).1
+          right
+          rw [hb0] at he
+          exact he
     · intro he; rw [hev] at he; cases he
     · intro he
       exact noMore_of_flags (h.eofNM he) rfl (Or.inl rfl) id (fun _ => rfl) (fun _ => rfl)
@@ -265,28 +302,30 @@ theorem DirInv.srcStep {c : Nat} {a a' : SrcV} {b : SinkV} (h : DirInv c a b) (s
       · exact Or.inl hs
       · exact Or.inr ⟨noMore_of_flags nm rfl (Or.inl rfl) id (fun _ => rfl) (fun _ => rfl), hd⟩
     · intro _; rfl
-  | flags r w hr hw =>
-    refine { h with exact := ?_, eofNM := ?_, gone := ?_ }
-    · rcases h.exact with hs | ⟨lost, he, hl⟩
-      · exact Or.inl hs
-      · right
-        refine ⟨lost, he, fun hne => ?_⟩
-        obtain ⟨h1, h2⟩ := hl hne
-        exact ⟨h1, h2.elim Or.inl (fun h3 => Or.inr (hr h3))⟩
+    · intro _ _ _; exact ⟨rfl, rfl⟩
+  | flags r w os hr hw hos hk =>
+    refine { h with eofNM := ?_, gone := ?_, nl1 := ?_, stopOk := ?_ }
     · intro he
       exact noMore_of_flags (h.eofNM he) rfl (Or.inl rfl) hw id hr
     · intro hb1 hb2
       rcases h.gone hb1 hb2 with hs | ⟨nm, hd⟩
       · exact Or.inl hs
       · exact Or.inr ⟨noMore_of_flags nm rfl (Or.inl rfl) hw id hr, hd⟩
-  | remove hp =>
+    · intro hs hp' hw'
+      rcases hk hw' with h1 | h1
+      · obtain ⟨x, y⟩ := h.nl1 hs hp' h1
+        exact ⟨x, hr y⟩
+      · rw [hs] at h1; cases h1
+    · intro hh; exact hos (h.stopOk hh)
+  | remove hp hb =>
     have hev := h.srcEv hp
     have nm' : noMore { a with present := false, buf := [] } := ⟨hev, Or.inl rfl⟩
-    refine { h with exact := ?_, fresh := ?_, eofNM := ?_, gone := ?_, srcBuf := ?_, srcEv := ?_ }
-    · rcases h.exact with hs | ⟨lost, he, _⟩
+    refine { h with exact := ?_, fresh := ?_, eofNM := ?_, gone := ?_, srcBuf := ?_, srcEv := ?_, nl1 := ?_ }
+    · rcases h.exact with hs | he
       · exact Or.inl hs
-      · right
-        exact ⟨a.buf ++ lost, by simp only [he]; simp, fun _ => ⟨hev, Or.inl rfl⟩⟩
+      · rcases hb with hb | hb
+        · right; rw [hb] at he; exact he
+        · exact Or.inl hb
     · intro he; rw [hev] at he; cases he
     · intro _; exact nm'
     · intro hb1 hb2
@@ -295,20 +334,17 @@ theorem DirInv.srcStep {c : Nat} {a a' : SrcV} {b : SinkV} (h : DirInv c a b) (s
       · exact Or.inr ⟨nm', hd⟩
     · intro _; rfl
     · intro hp'; cases hp'
-  | create he r =>
+    · intro _ hp'; cases hp'
+  | create he r os hos =>
     obtain ⟨hnp, hc0, hns⟩ := h.fresh he
     have hbuf := h.srcBuf hnp
     have notNM : ¬ noMore a := fun nm => by have := nm.1; rw [he] at this; cases this
-    refine { h with exact := ?_, fresh := ?_, eofNM := ?_, gone := ?_, srcBuf := ?_, srcEv := ?_ }
-    · rcases h.exact with hs | ⟨lost, hex, hl⟩
+    refine { h with exact := ?_, fresh := ?_, eofNM := ?_, gone := ?_, srcBuf := ?_, srcEv := ?_,
+                    nl1 := ?_, stopOk := ?_ }
+    · rcases h.exact with hs | hex
       · exact Or.inl hs
       · right
-        have hlost : lost = [] := by
-          cases lost with
-          | nil => rfl
-          | cons y ys => have := (hl (by simp)).1; rw [he] at this; cases this
-        subst hlost
-        exact ⟨[], by simp only [hex, hbuf], by simp⟩
+        rw [hbuf] at hex; exact hex
     · intro h1; cases h1
     · intro hh; rw [hasEof_noStream c a.out hns] at hh; cases hh
     · intro hb1 hb2
@@ -317,6 +353,28 @@ theorem DirInv.srcStep {c : Nat} {a a' : SrcV} {b : SinkV} (h : DirInv c a b) (s
       · exact absurd nm notNM
     · intro h1; cases h1
     · intro _; rfl
+    · intro _ _ hw; cases hw
+    · intro hh; rw [hasStop_noStream c a.out hns] at hh; cases hh
+
+/-- A step allowed while the sink is open is allowed in any case. -/
+theorem SrcStep.mono {c : Nat} {a a' : SrcV} (k : Bool) (st : SrcStep c false a a') : SrcStep c k a a' := by
+  cases st with
+  | consume x hp hr => exact .consume a x hp hr
+  | send moved rest hb hne hp => exact .send a moved rest hb hne hp
+  | eof hp hb hr hw => exact .eof a hp hb hr hw
+  | stopFrame hp hs => exact .stopFrame a hp hs
+  | foreign fr hf => exact .foreign a fr hf
+  | discard hp hw => exact .discard a hp hw
+  | flags r w os hr hw hos hk =>
+    exact .flags a r w os hr hw hos (fun h => (hk h).elim Or.inl (fun h' => by cases h'))
+  | remove hp hb => exact .remove a hp (hb.elim Or.inl (fun h' => by cases h'))
+  | create he r os hos => exact .create a he r os hos
+
+theorem srcStar_lift {c : Nat} {a a' : SrcV} (k : Bool) (h : Star (SrcStep c false) a a') :
+    Star (SrcStep c k) a a' := by
+  induction h with
+  | refl => exact Star.refl _
+  | tail _ st ih => exact Star.tail ih (SrcStep.mono k st)
 
 /-! ### preservation by sink transitions -/
 
@@ -328,18 +386,18 @@ theorem DirInv.sinkStep {c : Nat} {a : SrcV} {b b' : SinkV} (h : DirInv c a b) (
     · subst hm
       simp only [List.nil_append] at hb
       refine { h with pre := by simpa using h.pre, exact := ?_, snkBuf := ?_ }
-      · rcases h.exact with hs' | ⟨lost, he, hl⟩
+      · rcases h.exact with hs' | he
         · exact Or.inl hs'
-        · exact Or.inr ⟨lost, by simp only [List.append_nil]; rw [← hb]; exact he, hl⟩
+        · exact Or.inr (by simp only [List.append_nil]; rw [← hb]; exact he)
       · intro hp; simp only; rw [← hb]; exact h.snkBuf hp
     · have hsaw := hs hm
-      rcases h.exact with hs' | ⟨lost, he, hl⟩
+      rcases h.exact with hs' | he
       · rw [hsaw] at hs'; cases hs'
       · refine { h with pre := ?_, exact := ?_, snkBuf := ?_ }
-        · refine ⟨rest ++ dataOf c a.out ++ a.buf ++ lost, ?_⟩
+        · refine ⟨rest ++ dataOf c a.out ++ a.buf, ?_⟩
           simp only [he, hb]; simp
         · right
-          exact ⟨lost, by simp only [he, hb]; simp, hl⟩
+          simp only [he, hb]; simp
         · intro hp
           have := h.snkBuf hp
           rw [this] at hb
@@ -351,19 +409,20 @@ theorem DirInv.sinkStep {c : Nat} {a : SrcV} {b b' : SinkV} (h : DirInv c a b) (
     · have hp' : b.present = false := by simpa using hp
       have hb := h.snkBuf hp'
       refine { h with exact := ?_, snkBuf := fun _ => rfl }
-      rcases h.exact with hs | ⟨lost, he, hl⟩
+      rcases h.exact with hs | he
       · exact Or.inl hs
-      · exact Or.inr ⟨lost, by simp only [he, hb], hl⟩
+      · exact Or.inr (by simp only [he, hb])
   | flags r w saw ok h1 h2 h3 h4 h5 h6 =>
     have hshut : b.present = true → w = true → saw = true := by
       intro hp hw
       rcases h4 hw with h' | h'
       · exact h2 (h.shutOk hp h')
       · exact h'
-    refine { h with exact := ?_, shutOk := hshut, gone := ?_, dead := ?_, goneShut := fun he hp => h2 (h.goneShut he hp) }
-    · rcases h.exact with hs | ⟨lost, he, hl⟩
+    refine { h with exact := ?_, shutOk := hshut, gone := ?_, dead := ?_, goneShut := fun he hp => h2 (h.goneShut he hp),
+                    nl1 := ?_ }
+    · rcases h.exact with hs | he
       · exact Or.inl (h2 hs)
-      · exact Or.inr ⟨lost, he, hl⟩
+      · exact Or.inr he
     · intro hb1 hb2
       have old : (b.present = false ∨ b.mwShutR = true) → saw = true ∨ (noMore a ∧ dataOf c a.out = []) := by
         intro hh
@@ -381,19 +440,28 @@ theorem DirInv.sinkStep {c : Nat} {a : SrcV} {b b' : SinkV} (h : DirInv c a b) (
       rcases h6 hok with h' | h'
       · exact h1 (h.dead hp h')
       · exact h'
+    · intro hs
+      apply h.nl1
+      cases hb : b.sawShut with
+      | false => rfl
+      | true =>
+        have := h2 hb
+        have hs' : saw = false := hs
+        rw [hs'] at this; cases this
   | remove hok hp =>
     have hsw := h.dead hp hok
     have hsaw := h.shutOk hp hsw
     have hev := h.snkEv hp
     refine { h with exact := Or.inl hsaw, shutOk := ?_, conn := ?_, gone := fun _ _ => Or.inl hsaw,
-                    dead := ?_, snkBuf := fun _ => rfl, snkEv := ?_, goneShut := fun _ _ => hsaw }
+                    dead := ?_, snkBuf := fun _ => rfl, snkEv := ?_, goneShut := fun _ _ => hsaw,
+                    nl1 := fun hs => by rw [hsaw] at hs; cases hs }
     · intro h1; cases h1
     · intro h1; rw [hev] at h1; cases h1
     · intro h1; cases h1
     · intro h1; cases h1
 
 theorem DirInv.srcStar {c : Nat} {a a' : SrcV} {b : SinkV} (h : DirInv c a b)
-    (st : Star (SrcStep c) a a') : DirInv c a' b := by
+    (st : Star (SrcStep c b.sawShut) a a') : DirInv c a' b := by
   induction st with
   | refl => exact h
   | tail _ hr ih => exact ih.srcStep hr
@@ -413,10 +481,11 @@ theorem DirInv.pop {c : Nat} {a : SrcV} {b : SinkV} (h : DirInv c a b) (fr : Fra
     (hc : isConnect c fr = true → b.ever = true) :
     DirInv c { a with out := rest } b := by
   have hdo : dataOf c a.out = dataOf c rest := by rw [ho]; simp [dataOf, hd]
-  refine { h with exact := ?_, conn := ?_, fresh := ?_, clean := ?_, eofNM := ?_, gone := ?_ }
-  · rcases h.exact with hs | ⟨lost, he, hl⟩
+  refine { h with exact := ?_, conn := ?_, fresh := ?_, clean := ?_, eofNM := ?_, gone := ?_,
+                  stopOk := fun hh => h.stopOk (by rw [ho]; exact hasStop_tail hh) }
+  · rcases h.exact with hs | he
     · exact Or.inl hs
-    · exact Or.inr ⟨lost, by rw [← hdo]; exact he, hl⟩
+    · exact Or.inr (by rw [← hdo]; exact he)
   · intro hbe
     obtain ⟨h1, h2⟩ := h.conn hbe
     refine ⟨h1, ?_⟩
@@ -446,10 +515,11 @@ theorem DirInv.dataAccepted {c : Nat} {a : SrcV} {b : SinkV} (h : DirInv c a b) 
   have hdo : dataOf c a.out = fr.data ++ dataOf c rest := by rw [ho]; simp [dataOf, hd]
   have hev := h.snkEv hp
   have hstream := isData_stream hd
-  refine { h with exact := ?_, conn := ?_, fresh := ?_, clean := ?_, eofNM := ?_, gone := ?_, snkBuf := ?_ }
-  · rcases h.exact with hs | ⟨lost, he, hl⟩
+  refine { h with exact := ?_, conn := ?_, fresh := ?_, clean := ?_, eofNM := ?_, gone := ?_, snkBuf := ?_,
+                  stopOk := fun hh => h.stopOk (by rw [ho]; exact hasStop_tail hh) }
+  · rcases h.exact with hs | he
     · exact Or.inl hs
-    · exact Or.inr ⟨lost, by simp only [he, hdo]; simp, hl⟩
+    · exact Or.inr (by simp only [he, hdo]; simp)
   · intro hbe; simp only at hbe; rw [hev] at hbe; cases hbe
   · intro hae
     obtain ⟨_, _, h3⟩ := h.fresh hae
@@ -494,7 +564,8 @@ theorem DirInv.dataDropped {c : Nat} {a : SrcV} {b : SinkV} (h : DirInv c a b) (
   rcases h.gone hev hg with hs | ⟨nm, hd'⟩
   · -- blocked: the exact equation is no longer needed
     refine { h with exact := Or.inl hs, conn := ?_, fresh := ?_, clean := ?_, eofNM := ?_,
-                    gone := fun _ _ => Or.inl hs }
+                    gone := fun _ _ => Or.inl hs,
+                    stopOk := fun hh => h.stopOk (by rw [ho]; exact hasStop_tail hh) }
     · intro hbe; rw [hev] at hbe; cases hbe
     · intro hae
       obtain ⟨_, _, h3⟩ := h.fresh hae
@@ -508,10 +579,11 @@ theorem DirInv.dataDropped {c : Nat} {a : SrcV} {b : SinkV} (h : DirInv c a b) (
       simp only [hasEof] at hh; rw [hh]; simp
   · rw [hdo] at hd'
     obtain ⟨hfd, hrest⟩ := List.append_eq_nil_iff.mp hd'
-    refine { h with exact := ?_, conn := ?_, fresh := ?_, clean := ?_, eofNM := ?_, gone := ?_ }
-    · rcases h.exact with hs | ⟨lost, he, hl⟩
+    refine { h with exact := ?_, conn := ?_, fresh := ?_, clean := ?_, eofNM := ?_, gone := ?_,
+                    stopOk := fun hh => h.stopOk (by rw [ho]; exact hasStop_tail hh) }
+    · rcases h.exact with hs | he
       · exact Or.inl hs
-      · exact Or.inr ⟨lost, by simp [he, hdo, hfd, hrest], hl⟩
+      · exact Or.inr (by simp [he, hdo, hfd, hrest])
     · intro hbe; rw [hev] at hbe; cases hbe
     · intro hae
       obtain ⟨_, _, h3⟩ := h.fresh hae
@@ -567,10 +639,12 @@ theorem DirInv.connectCreates {c : Nat} {a : SrcV} {b : SinkV} (h : DirInv c a b
     simp [Ne.symm h3, Ne.symm h5, Ne.symm h6]
   refine { pre := h.pre, exact := ?_, shutOk := ?_, conn := ?_, fresh := ?_, clean := ?_, eofNM := ?_,
            gone := ?_, dead := ?_, srcBuf := h.srcBuf, snkBuf := ?_, srcEv := h.srcEv, snkEv := ?_,
-           goneShut := fun _ hp => by cases hp }
-  · rcases h.exact with hs | ⟨lost, he, hl⟩
+           goneShut := fun _ hp => (by cases hp),
+           nl1 := ?_,
+           stopOk := fun hh => h.stopOk (by rw [ho]; exact hasStop_tail hh) }
+  · rcases h.exact with hs | he
     · exact Or.inl (hmono hs)
-    · exact Or.inr ⟨lost, by rw [he, hb0, hdo], hl⟩
+    · exact Or.inr (by rw [he, hb0, hdo])
   · intro _ h2; exact hsw h2
   · intro h1; cases h1
   · intro hae
@@ -587,5 +661,13 @@ theorem DirInv.connectCreates {c : Nat} {a : SrcV} {b : SinkV} (h : DirInv c a b
   · intro _ h2; cases h2
   · intro h1; cases h1
   · intro _; rfl
+  · intro hs
+    apply h.nl1
+    cases hb : b.sawShut with
+    | false => rfl
+    | true =>
+      have := hmono hb
+      have hs' : saw = false := hs
+      rw [hs'] at this; cases this
 
 end Sshuttle.Tunnel
